@@ -228,6 +228,9 @@ def build_formula(f, atoms):
             raise CaseInvalid('atom')
         atoms.add(f[1])
         return Var(f[1], BoolType)
+    if tag == 'const' and f[1] in (True, False):
+        from kernel.term import true, false
+        return true if f[1] else false
     if tag == 'not' and len(f) == 2:
         return Not(build_formula(f[1], atoms))
     if tag in ('and', 'or', 'imp', 'iff') and len(f) == 3:
@@ -240,6 +243,8 @@ def eval_formula(f, env):
     tag = f[0]
     if tag == 'atom':
         return env[f[1]]
+    if tag == 'const':
+        return bool(f[1])
     if tag == 'not':
         return not eval_formula(f[1], env)
     a, b = eval_formula(f[1], env), eval_formula(f[2], env)
@@ -247,7 +252,7 @@ def eval_formula(f, env):
 
 
 def n_connectives(f):
-    return 0 if f[0] == 'atom' else 1 + sum(n_connectives(x) for x in f[1:])
+    return 0 if f[0] in ('atom', 'const') else 1 + sum(n_connectives(x) for x in f[1:])
 
 
 def eval_bool_term(t, env):
@@ -319,8 +324,6 @@ def check_formula(f, H, case):
     atoms = sorted(atoms)
     if len(atoms) > 8:
         raise CaseInvalid('too many atoms')
-    if any(a.startswith('x') and a[1:].isdigit() for a in atoms):
-        raise CaseInvalid('atom names clash with the names the encoder introduces')
     nontrivial = n_connectives(f) >= 2
     # ground truth for the formula
     models = []
@@ -329,7 +332,8 @@ def check_formula(f, H, case):
         if eval_formula(f, env):
             models.append(env)
     f_sat = bool(models)
-    klass = 'formula:' + ('sat' if f_sat else 'unsat')
+    has_const = '"const"' in harness.canon(f)
+    klass = 'formula:' + ('sat' if f_sat else 'unsat') + (':with-constants' if has_const else '')
     try:
         with time_limit(60):
             pt = tseitin.encode(t)
@@ -361,7 +365,7 @@ def check_formula(f, H, case):
         if h == t and not (h.is_equals() and h.lhs.is_var() and h.lhs.name not in atoms and h.lhs.name in defs):
             # may also be a definition when t itself is an equation; handled below
             pass
-        if h.is_equals() and h.lhs.is_var() and h.lhs.name not in atoms:
+        if h.is_equals() and h.lhs.is_var() and (h.lhs.name not in atoms or h != t):
             if h.lhs.name in defs:
                 H.violation('tseitin:hyp-two-definitions', case, 'variable %s defined twice in %s' % (h.lhs.name, th))
                 return nontrivial, klass
@@ -388,7 +392,7 @@ def check_formula(f, H, case):
     else:
         c_sat = dpll_sat(cnf)
     if c_sat != f_sat:
-        H.violation('tseitin:not-equisatisfiable:%s' % ('formula-sat' if f_sat else 'formula-unsat'), case,
+        H.violation('tseitin:boolean-constant-treated-as-atom' if has_const else 'tseitin:not-equisatisfiable:%s' % ('formula-sat' if f_sat else 'formula-unsat'), case,
                     'formula satisfiable=%s but CNF %s satisfiable=%s' % (f_sat, sat.str_of_cnf(cnf), c_sat))
         return nontrivial, klass
     # 5. solve_cnf agrees on the encoded CNF
@@ -396,7 +400,7 @@ def check_formula(f, H, case):
     if status == 'ok':
         verdict = r[0]
         if (verdict == 'satisfiable') != f_sat:
-            H.violation('tseitin:solve_cnf-disagrees', case, 'formula satisfiable=%s, solve_cnf says %s' % (f_sat, verdict))
+            H.violation('tseitin:boolean-constant-treated-as-atom' if has_const else 'tseitin:solve_cnf-disagrees', case, 'formula satisfiable=%s, solve_cnf says %s' % (f_sat, verdict))
         elif verdict == 'satisfiable':
             ok, why = check_assignment(cnf, r[1])
             if not ok:
@@ -484,7 +488,9 @@ def cnf_strategy():
 
 def formula_strategy():
     from hypothesis import strategies as st
-    atoms = st.sampled_from(['p', 'q', 'r', 's', 't']).map(lambda a: ['atom', a])
+    atoms = st.one_of(st.sampled_from(['p', 'q', 'r', 's', 't', 'x1', 'x2', 'x3']).map(lambda a: ['atom', a]),
+                      st.sampled_from(['p', 'q', 'r', 's', 't']).map(lambda a: ['atom', a]),
+                      st.sampled_from([True, False]).map(lambda b: ['const', b]))
 
     def ext(children):
         return st.one_of(
@@ -493,7 +499,7 @@ def formula_strategy():
     f = st.recursive(atoms, ext, max_leaves=10)
 
     def depth(x):
-        return 0 if x[0] == 'atom' else 1 + max(depth(y) for y in x[1:])
+        return 0 if x[0] in ('atom', 'const') else 1 + max(depth(y) for y in x[1:])
     # contradictions / tautologies are rare in random formulas: wrap some
     @st.composite
     def wrapped(draw):
